@@ -116,6 +116,10 @@ def pipeline(src: str, want_census: bool = True) -> Dict[str, Any]:
         orig_names = {n.id for n in ast.walk(ast.parse(src)) if isinstance(n, ast.Name)} | {a.arg for a in ast.walk(ast.parse(src)) if isinstance(a, ast.arg)}
         out["stage"] = "restructure"
         scfg.restructure()
+        from .project import project
+
+        st_ = project(scfg)
+        out["H"], out["root"] = st_["H"], st_["root"]
         out["stage"] = "scfg2ast"
         fdef = SCFG2AST(src, scfg)
         out["stage"] = "skeleton"
